@@ -48,6 +48,9 @@ type c10Action struct {
 	Sleep  int    // ms the program sleeps
 	Code   int    // exit code of an ok program
 	Freeze int    // ms: SIGSTOP the init when the host reaches its wait point, SIGCONT after this long (both "result" and "kill" pending)
+	// execve "ok" in the background context: a second Execve (its own exit code) is issued in the same goroutine the
+	// moment the first one has returned - no pause in which the environment could finish tidying up after the first
+	Twin bool `json:",omitempty"`
 }
 
 type c10Case struct{ Actions []c10Action }
@@ -97,7 +100,7 @@ func c10GenCase(rt *rapid.T) c10Case {
 		default:
 			a := c10Action{Kind: "execve", Target: rapid.SampledFrom(c10Targets).Draw(rt, "target"), Sync: rapid.SampledFrom([]string{"none", "ok", "ok", "fail"}).Draw(rt, "sync"),
 				After: rapid.IntRange(0, 3).Draw(rt, "after") == 0, Ctx: rapid.SampledFrom([]string{"background", "background", "background", "cancelled", "cancel-after"}).Draw(rt, "ctx"),
-				Delay: rapid.IntRange(0, 12).Draw(rt, "delay"), Sleep: rapid.SampledFrom([]int{0, 0, 0, 1, 3, 8, 30}).Draw(rt, "sleep"), Code: rapid.IntRange(0, 200).Draw(rt, "code"),
+				Twin: rapid.IntRange(0, 2).Draw(rt, "twin") == 0, Delay: rapid.IntRange(0, 12).Draw(rt, "delay"), Sleep: rapid.SampledFrom([]int{0, 0, 0, 1, 3, 8, 30}).Draw(rt, "sleep"), Code: rapid.IntRange(0, 200).Draw(rt, "code"),
 				Freeze: rapid.SampledFrom([]int{0, 0, 0, 2, 10, 25}).Draw(rt, "freeze")}
 			c.Actions = append(c.Actions, a)
 		}
@@ -145,6 +148,8 @@ var (
 	c10SimpleRe = regexp.MustCompile(`^send cmd:(1|2|3|4|9);recv reply:(ok|error|batch);$`)
 	// execve: cmd:5, then either an error reply (failure before sync), or the sync reply followed by ok/kill ...
 	c10ExecRe = regexp.MustCompile(`^send cmd:5;(recv reply:error;|recv reply:ok;(send cmd:7;recv reply:(error|exec);|send cmd:6;(recv reply:(exec|error);send cmd:7;|send cmd:7;recv reply:(exec|error);)))$`)
+	// two complete execve words in a row (twin calls)
+	c10ExecTwinRe = regexp.MustCompile(`^(send cmd:5;(recv reply:error;|recv reply:ok;(send cmd:7;recv reply:(error|exec);|send cmd:6;(recv reply:(exec|error);send cmd:7;|send cmd:7;recv reply:(exec|error);)))){2}$`)
 )
 
 // ---- the model ----------------------------------------------------------------------------------------------
@@ -637,8 +642,28 @@ func c10Run(c c10Case, rec *vh.Recorder) error {
 				}
 				classes = append(classes, "init-frozen-at-wait")
 			}
-			var res runner.Result
-			_, _, hung := call("execve", func() error { res = env.Execve(ctx, p); return nil })
+			var res, res2 runner.Result
+			twin := a.Twin && a.Target == "ok" && a.Ctx == "background" && a.Freeze == 0 && a.Sync != "fail"
+			code2 := (code+7)%200 + 1
+			var p2 container.ExecveParam
+			if twin {
+				var s2 probe.Script
+				s2.Add(fmt.Sprintf("exit:%d", code2))
+				argv2 := s2.Argv(tag, 3)
+				argv2[0] = "/vprobe"
+				p2 = container.ExecveParam{Args: argv2, Env: []string{"PATH=/bin:/usr/bin"}, Files: []uintptr{dn.Fd(), dn.Fd(), dn.Fd()}, ExecFile: efd}
+				if code%2 == 0 {
+					p2.ExecFile, p2.Args = 0, []string{"false"} // by path, found in PATH: exits 1
+					code2 = 1
+				}
+			}
+			_, _, hung := call("execve", func() error {
+				res = env.Execve(ctx, p)
+				if twin {
+					res2 = env.Execve(context.Background(), p2)
+				}
+				return nil
+			})
 			container.VerifHook.Point = nil
 			syscall.Kill(initPid, syscall.SIGCONT)
 			if cancel != nil {
@@ -693,7 +718,15 @@ func c10Run(c c10Case, rec *vh.Recorder) error {
 					return vh.Violf("C10:sync-skipped", "%s", desc)
 				}
 			}
-			if err := checkLogs(ai, a, c10ExecRe); err != nil {
+			if twin {
+				if res2.Status != runner.StatusNonzeroExitStatus || res2.ExitStatus != code2 {
+					return vh.Violf("C10:wrong-answer", "%s: the Execve issued right after this one returned got %v exit %d %q, its program exits %d; container stderr %q", desc, res2.Status, res2.ExitStatus, res2.Error, code2, contInfo())
+				}
+				classes = append(classes, "twin-execve(no pause between two calls)")
+				if err := checkLogs(ai, a, c10ExecTwinRe); err != nil {
+					return err
+				}
+			} else if err := checkLogs(ai, a, c10ExecRe); err != nil {
 				return err
 			}
 		}
